@@ -25,8 +25,8 @@
          REFUTED in general (21)-(24) with witnesses that hold for every
          correct libm.                                                       *)
 From FendV Require Import Base.Prelude Elem.Bridge Elem.Model Elem.ModelProofs
-  Elem.BridgeProofs Elem.RootProofs Elem.RoundProofs Elem.TrigReals Elem.PointDefs Elem.Accuracy
-  Elem.AccuracySmall.
+  Elem.BridgeProofs Elem.RootProofs Elem.RoundProofs Elem.RoundMulti Elem.TrigReals Elem.PointDefs
+  Elem.Accuracy Elem.AccuracySmall Elem.AccuracyMulti Elem.LogAccuracy Elem.AngleTable.
 From Coq Require Import QArith Qabs Qreals Reals.
 Open Scope R_scope.
 
@@ -191,6 +191,27 @@ Theorem C15_angle_units_exact : forall x : Q,
 Proof. exact angle_units_lemma. Qed.
 Print Assumptions C15_angle_units_exact.
 
+(* ------------------------------------------------------------- (11b) *)
+(* finite kernel check over the regenerated unit table (ALL_UNIT_DEFS and the
+   resolver's answers of the tree under test, coq/Units/Generated/UnitTable.v):
+   every name of the ANGLES group -- radian rad circle degree deg (degree sign)
+   arcdeg arcmin arcminute arcsec arcsecond rightangle quadrant quintant
+   sextant zodiac_sign turn revolution rev gradian gon grad mas, singular and
+   plural -- resolves to exactly one of itself, is dimensionless, and reduces
+   to radians with exactly the factor Model.unit_in_pi documents; and no
+   definition of that group is left unchecked.  A typo in one table entry
+   (say gradian = 1/10 rightangle) breaks this obligation. *)
+Theorem C15_angle_unit_table :
+  forallb (fun p => angle_entry_ok (fst p) (snd p)) angle_names = true.
+Proof. exact angle_table_ok. Qed.
+Print Assumptions C15_angle_unit_table.
+
+Theorem C15_angle_unit_table_complete :
+  forallb def_covered FendV.Units.Generated.UnitTable.gen_defs = true /\
+  existsb (fun d => (fst d =? angles_group)%N) FendV.Units.Generated.UnitTable.gen_defs = true.
+Proof. exact angle_table_complete. Qed.
+Print Assumptions C15_angle_unit_table_complete.
+
 (* --------------------------------------------------------------- (12) *)
 (* x^1 = x and 1^x = 1: exact, unmarked, whatever the pattern *)
 Theorem C15_pow_one : forall a, real_pow a (RSimple 1) = Ok (mkEx a true).
@@ -239,6 +260,13 @@ Theorem C15_integer_root_sound : forall x n r b,
   (b = false /\ r ^ n < x /\ x < (r + 1) ^ n)%N.
 Proof. exact biguint_root_n_sound. Qed.
 Print Assumptions C15_integer_root_sound.
+
+(* ... and it never exhausts the model's fuel: a root, or one of the two guards *)
+Theorem C15_integer_root_total : forall x n,
+  (exists r, biguint_root_n x n = Ok r) \/ biguint_root_n x n = Err EOutOfRange \/
+  biguint_root_n x n = Panic 244.
+Proof. exact biguint_root_n_total. Qed.
+Print Assumptions C15_integer_root_total.
 
 Theorem C15_root_bisection_bracket : forall low val n,
   (Qpower low (Z.of_N n) <= val)%Q -> (val <= Qpower (low + 1) (Z.of_N n))%Q ->
@@ -403,6 +431,120 @@ Theorem C15_accuracy_small_operands_atan : forall Fo q,
 Proof. exact accuracy_atan_small. Qed.
 Print Assumptions C15_accuracy_small_operands_atan.
 
+(* ------------------------------------------------------------- (19c) *)
+(* MULTI-limb operands.  BigUint::as_f64 performs two roundings per limb; for
+   every n below 2^1023 (up to 16 limbs) the result is within
+   (1+2^-53)^32 - 1 < 33 * 2^-53 of n, and BigRat::into_f64 is within 2^-46
+   relative of the rational whenever the simplified numerator and denominator
+   are below 2^1023 and the quotient is between 2^-999 and 2^1000 in magnitude
+   (below that the quotient enters the subnormal range of f64). *)
+Theorem C15_as_f64_accurate : forall n, (0 < n < 2 ^ 1023)%N ->
+  exists m e, as_f64 n = FFin false m e /\ (2 ^ 52 <= m <= 2 ^ 53)%N /\
+              Rabs (RN m * p2 e - RN n) <= Ek 32 * RN n.
+Proof. exact as_f64_multi. Qed.
+Print Assumptions C15_as_f64_accurate.
+
+Theorem C15_into_f64_accurate : forall q, ordinary_operands q -> Rabs (Q2R q) <= 1000 ->
+  into_ok (/ 2 ^ 46) q.
+Proof. exact into_ok_ordinary. Qed.
+Print Assumptions C15_into_f64_accurate.
+
+(* so the accuracy theorems lose their conversion hypothesis: the ONLY premise
+   left is about libm at the single consulted point (finite answer within one
+   ulp: absolute 2^-52 for sin cos atan tanh, 2^-50 for asinh, relative 2^-52
+   for sinh and cosh) *)
+Theorem C15_accuracy_sin : forall Fo q,
+  Rabs (Q2R q) <= 1000 -> ordinary_operands q ->
+  libm_ok (Fo Fsin) sin (/ 2 ^ 52) (into_f64 q) ->
+  exists v, real_fn Fo Fsin (RSimple q) = Ok v /\
+            within_budget (real_val (exv v)) (true_fn Fsin (Q2R q)).
+Proof. exact accuracy_sin_ordinary. Qed.
+Print Assumptions C15_accuracy_sin.
+
+Theorem C15_accuracy_cos : forall Fo q,
+  Rabs (Q2R q) <= 1000 -> (Qnum q =? 0)%Z = false ->
+  let a := rat_add q ((1 # 2) * pi_model) in
+  ordinary_operands a ->
+  libm_ok (Fo Fsin) sin (/ 2 ^ 52) (into_f64 a) ->
+  exists v, real_fn Fo Fcos (RSimple q) = Ok v /\
+            within_budget (real_val (exv v)) (true_fn Fcos (Q2R q)).
+Proof. exact accuracy_cos_ordinary. Qed.
+Print Assumptions C15_accuracy_cos.
+
+Theorem C15_accuracy_atan : forall Fo q,
+  Rabs (Q2R q) <= 1000 -> ordinary_operands q ->
+  libm_ok (Fo Fatan) atan (/ 2 ^ 52) (into_f64 q) ->
+  exists v, real_fn Fo Fatan (RSimple q) = Ok v /\
+            within_budget (real_val (exv v)) (true_fn Fatan (Q2R q)).
+Proof. exact accuracy_atan_ordinary. Qed.
+Print Assumptions C15_accuracy_atan.
+
+Theorem C15_accuracy_tanh : forall Fo q,
+  Rabs (Q2R q) <= 1000 -> ordinary_operands q ->
+  libm_ok (Fo Ftanh) tanh (/ 2 ^ 52) (into_f64 q) ->
+  exists v, real_fn Fo Ftanh (RSimple q) = Ok v /\
+            within_budget (real_val (exv v)) (true_fn Ftanh (Q2R q)).
+Proof. exact accuracy_tanh_ordinary. Qed.
+Print Assumptions C15_accuracy_tanh.
+
+Theorem C15_accuracy_asinh : forall Fo q,
+  Rabs (Q2R q) <= 1000 -> ordinary_operands q ->
+  libm_ok (Fo Fasinh) arcsinh (/ 2 ^ 50) (into_f64 q) ->
+  exists v, real_fn Fo Fasinh (RSimple q) = Ok v /\
+            within_budget (real_val (exv v)) (true_fn Fasinh (Q2R q)).
+Proof. exact accuracy_asinh_ordinary. Qed.
+Print Assumptions C15_accuracy_asinh.
+
+Theorem C15_accuracy_sinh : forall Fo q,
+  Rabs (Q2R q) <= 1000 -> ordinary_operands q ->
+  libm_rel (Fo Fsinh) sinh (/ 2 ^ 52) (into_f64 q) ->
+  exists v, real_fn Fo Fsinh (RSimple q) = Ok v /\
+            within_budget (real_val (exv v)) (true_fn Fsinh (Q2R q)).
+Proof. exact accuracy_sinh_ordinary. Qed.
+Print Assumptions C15_accuracy_sinh.
+
+Theorem C15_accuracy_cosh : forall Fo q,
+  Rabs (Q2R q) <= 1000 -> ordinary_operands q ->
+  libm_rel (Fo Fcosh) cosh (/ 2 ^ 52) (into_f64 q) ->
+  exists v, real_fn Fo Fcosh (RSimple q) = Ok v /\
+            within_budget (real_val (exv v)) (true_fn Fcosh (Q2R q)).
+Proof. exact accuracy_cosh_ordinary. Qed.
+Print Assumptions C15_accuracy_cosh.
+
+(* ------------------------------------------------------------- (19d) *)
+(* log2 / ln / log10 do not use into_f64: BigRat::log2 is
+   num.log2 - den.log2 with BigUint::log2 n = (bits-1) + libm_log2(2n / 2^bits).
+   For a positive argument whose stored numerator and denominator are below
+   2^1022 (any magnitude of the quotient), with libm's log2 within 2^-52 at the
+   two consulted points (and its answer 0 or at least 2^-900 in magnitude):
+   BigUint::log2 is within 2^-41 of the real log2, the difference and from_f64
+   within 2^-39, and the division by from_f64(LOG2_E) / from_f64(LOG2_10) keeps
+   ln and log10 within 1e-9. *)
+Theorem C15_biguint_log2_accurate : forall F n, (0 < n < 2 ^ 1022)%N ->
+  libm_log2_ok F (log2_query_fl n) ->
+  zero_or_good (biguint_log2 F n) /\
+  Rabs (flv (biguint_log2 F n) - log2 (RN n)) <= / 2 ^ 41.
+Proof. exact biguint_log2_spec. Qed.
+Print Assumptions C15_biguint_log2_accurate.
+
+Theorem C15_accuracy_log2 : forall Fo q, log_operands q -> libm_log2_at Fo q ->
+  exists v, real_fn Fo Flog2 (RSimple q) = Ok v /\
+            within_budget (real_val (exv v)) (true_fn Flog2 (Q2R q)).
+Proof. exact accuracy_log2. Qed.
+Print Assumptions C15_accuracy_log2.
+
+Theorem C15_accuracy_ln : forall Fo q, log_operands q -> libm_log2_at Fo q ->
+  exists v, real_fn Fo Fln (RSimple q) = Ok v /\
+            within_budget (real_val (exv v)) (true_fn Fln (Q2R q)).
+Proof. exact accuracy_ln. Qed.
+Print Assumptions C15_accuracy_ln.
+
+Theorem C15_accuracy_log10 : forall Fo q, log_operands q -> libm_log2_at Fo q ->
+  exists v, real_fn Fo Flog10 (RSimple q) = Ok v /\
+            within_budget (real_val (exv v)) (true_fn Flog10 (Q2R q)).
+Proof. exact accuracy_log10. Qed.
+Print Assumptions C15_accuracy_log10.
+
 (* --------------------------------------------------------------- (20) *)
 (* error budget of the bridge around the oracle, for ANY function fR with
    Lipschitz constant L: 2^-64 (from_f64) + eps_libm + L * delta * |q| *)
@@ -456,6 +598,14 @@ Proof. split; reflexivity. Qed.
 Example C15_root_bisection_inhabited :      (* sqrt 2 from the floor 1 *)
   (Qpower 1 (Z.of_N 2) <= 2)%Q /\ (2 <= Qpower (1 + 1) (Z.of_N 2))%Q.
 Proof. split; discriminate. Qed.
+
+Example C15_ordinary_operands_inhabited :       (* a 3-limb numerator *)
+  (Z.abs (Qnum (Qred (10 ^ 50 + 1 # 10 ^ 49))) < 2 ^ 1023)%Z /\
+  (Z.pos (Qden (Qred (10 ^ 50 + 1 # 10 ^ 49))) < 2 ^ 1023)%Z.
+Proof. split; vm_compute; reflexivity. Qed.
+
+Example C15_log_operands_inhabited : log_operands (25 # 2)%Q.
+Proof. repeat split; reflexivity. Qed.
 
 Example C15_small_operands_inhabited : small_operands (-355 # 113)%Q.
 Proof. split; reflexivity. Qed.
